@@ -8,7 +8,7 @@ VERIF = os.path.abspath(os.path.join(os.path.dirname(os.path.abspath(__file__)),
 CORE_OPS = {"new", "clone", "clonef", "drop", "set", "clear", "mark", "collect", "unwrap", "fagain", "put", "take"}
 BASE = dict(N=3, NS=2, NP=0, NW=0, FIN=True, WEAK=True, DBG=True, MAXRC=16382, MAXWC=32767, MaxRoots=2, MaxWRoots=0,
             MaxOps=6, MaxFaults=0, MaxTraceK=0, BUG_STALE_TC=False, BUG_NESTED_FLAGS=False, OPS=CORE_OPS,
-            AUTOF=True, AUTO0=False, SZ=160, CLEAN=False, MaxActs=0, BUG_CLEAN_REENTRANT=False)
+            AUTOF=True, AUTO0=False, SZ=160, CLEAN=False, MaxActs=0, BUG_CLEAN_REENTRANT=False, RECORD=True)
 
 
 def _eng(name, quick, thorough, builds, **kw):
@@ -21,6 +21,9 @@ def _eng(name, quick, thorough, builds, **kw):
 
 
 ENGINES = {
+    # liveness: a collection always ends (PROPERTY CollectionEnds under weak fairness), pass loop bounded (hand-written cfg)
+    'live': {'module': 'CcImpl.tla', 'cfg': {'quick': 'MC_live.cfg', 'thorough': 'MC_live.cfg'}, 'consts': {}, 'static': True,
+             'builds': {'quick': ['all-dev'], 'thorough': ['all-dev']}, 'emit': False, 'workers': 4},
     # all histories of the core API over 3 objects with 2 traced fields
     'core': _eng('core', dict(MaxOps=5), dict(MaxOps=7), {'quick': ['all-dev'], 'thorough': ['all-dev', 'all-rel', 'default-dev', 'noauto-rel']}),
     # an untraced (pinning) field next to a traced one
@@ -104,7 +107,7 @@ PROP_ENGINES = {
     'C03': ['core', 'nofin', 'fault', 'weak', 'cyc'],
     'C04': ['core', 'pin', 'fault', 'weak', 'sat'],
     'C05': ['resur', 'core', 'nofin', 'fault', 'weak'],
-    'C06': ['resur', 'core', 'weak'],
+    'C06': ['live', 'resur', 'core', 'weak'],
     'C07': ['fault', 'faultnofin', 'weaknofin', 'cleanfault', 'auto', 'cyc'],
     'C08': ['weak', 'weaknofin', 'clean'],
     'C09': ['weak', 'weaknofin', 'cyc', 'sat'],
@@ -142,6 +145,8 @@ def plan(pid, tier, seed):
             engines = list(GRAPH_ENGINES) if pid in ('C01', 'C03', 'C07') else engines
         conf = []
         for en in engines:
+            if ENGINES[en].get('emit', True) is False:
+                continue
             for b in ENGINES[en]['builds'][tier]:
                 conf.append({'kind': 'replay', 'variant': b, 'engine': en})
         only = os.environ.get('VERIF_ONLY_ENGINES')   # development aid: restrict the plan (never used by registered commands)
